@@ -84,6 +84,14 @@ def main():
             h.sleeper = lambda r=r: time.sleep(0.0003) if r.random() < 0.15 else None
         res = {"ok": True}
         try:
+            if cfg.get("abandoned"):
+                # the simulator served a replication before that was paused half-way, abandoned and cleaned up (cleanup(), then
+                # initialize(), as cleanup's documentation describes): nothing of it is left
+                if h.cmd("initialize") == "ok":
+                    h.start_and_pause_after(cfg["abandoned"])
+                    h.wait_quiescent(30)
+                    h.cmd("cleanup")
+                h.reset_logs()
             if h.experiment is not None:
                 # an experiment: replication r of the model is the same run whether or not other replications were run
                 # before it on the same simulator, model and streams
